@@ -1,7 +1,8 @@
 (* C09 -- Overload degrades by omission only.
    Only pinned statements, closed by [exact lemma], with Print Assumptions. *)
 From Coq Require Import List NArith Bool.
-From FT Require Import Model.Base Model.Local Model.Spsc Proofs.SpscProofs Proofs.LimitProofs.
+From FT Require Import Model.Base Model.Local Model.Records Model.Spsc Model.Collector Model.System Proofs.SpscProofs Proofs.LimitProofs
+     Proofs.HistoryProofs Proofs.FifoProofs.
 Import ListNotations.
 Open Scope N_scope.
 
@@ -79,6 +80,50 @@ Theorem C09_full_scope_stays_full :
   forall dbg st h e st' e', top_full st -> s_exit dbg st h e = Ok (st', e') -> top_full st'.
 Proof. exact full_stays_full_after_exit. Qed.
 
+(* AT THE SYSTEM LEVEL.  Control commands = StartCollect, DropCollect, CommitCollect (finish
+   and cancel signals; everything but SubmitSpans).  [flight_of t s]: what thread t's sender
+   holds, oldest first (ring, then what is parked behind a full ring, then what the current
+   call has not handed over yet); [emitted t s h] / [popped_from t s h]: what t's calls hand to
+   the sender / what the collector pops out of t's ring along the history h.  For EVERY state
+   in which t lives, every history in which t does not exit -- any ring capacity, any calls,
+   single pushes and exits of other threads, collector pops placed anywhere: popped ++ still
+   in flight = in flight at the beginning ++ emitted since, as SEQUENCES of control commands.
+   No finish or cancel signal is dropped, duplicated or reordered while the thread lives. *)
+Theorem C09_control_commands_fifo_over_histories :
+  forall t h s,
+    alive t s -> never_exits t h ->
+    alive t (fst (run s h)) /\
+    ctl (flight_of t s) ++ ctl (emitted t s h) =
+    ctl (popped_from t s h) ++ ctl (flight_of t (fst (run s h))).
+Proof. exact run_fifo. Qed.
+
+(* a freshly spawned thread is alive with nothing in flight *)
+Theorem C09_spawned_thread_is_alive :
+  forall s t prefix suffix,
+    amem t (s_threads s) = false -> in_drain (s_pc s) = false ->
+    alive t (fst (step s (ASpawn t prefix suffix))) /\ flight_of t (fst (step s (ASpawn t prefix suffix))) = [].
+Proof. exact spawned_alive. Qed.
+
+(* every call marks exactly its control commands as forced *)
+Theorem C09_forced_flag_is_control_command :
+  forall s th e c s1 th1 e1 out r, exec_call s th e c = COk s1 th1 e1 out r -> flags_ok out.
+Proof. exact exec_call_flags. Qed.
+
+(* non-vacuity, ring capacity 1: a root started and finished (its span set does not fit and is
+   dropped, its commit is parked and replayed), a second root started and cancelled; three
+   cycles.  1 = start, 2 = cancel, 3 = commit, 4 = span set *)
+Example C09_fifo_example :
+  let s0 := fst (run (sys_init false 1 16 16) [AInstall true; ASpawn 1 1 0]) in
+  let h := [ACall 1 (KRoot 1 2 77 5 true); APush 1; ACall 1 (KDropSpan 1); APush 1; APush 1;
+            ACBegin; ACPop; ACPop; ACCheck; ACProcess;
+            ACall 1 (KRoot 2 2 78 5 true); APush 1; APush 1; APush 1; ACall 1 (KCancel 2); APush 1; APush 1;
+            ACBegin; ACPop; ACPop; ACCheck; ACProcess; ACBegin; ACPop; ACPop; ACCheck; ACProcess] in
+  let kind := fun c => match c with CStart i => (1, i) | CDrop i => (2, i) | CCommit i => (3, i) | CSubmit _ _ => (4, 0) end in
+  map kind (emitted 1 s0 h) = [(1, 0); (4, 0); (3, 0); (1, 1); (2, 1)] /\
+  map kind (popped_from 1 s0 h) = [(1, 0); (3, 0)] /\
+  map kind (flight_of 1 (fst (run s0 h))) = [(1, 1); (2, 1)].
+Proof. vm_compute. repeat split; reflexivity. Qed.
+
 Print Assumptions C09_forced_fifo_no_loss.
 Print Assumptions C09_forced_popped_prefix.
 Print Assumptions C09_omission_only.
@@ -88,3 +133,6 @@ Print Assumptions C09_full_scope_skips_spans.
 Print Assumptions C09_full_scope_skips_events.
 Print Assumptions C09_full_scope_skips_properties.
 Print Assumptions C09_full_scope_stays_full.
+Print Assumptions C09_control_commands_fifo_over_histories.
+Print Assumptions C09_spawned_thread_is_alive.
+Print Assumptions C09_forced_flag_is_control_command.
